@@ -1,3 +1,6 @@
 import LhasaV.Props.C20
 open LhasaV.Props.C20
-#print axioms fresh_ledger_empty
+#print axioms free_releases_all
+#print axioms free_releases_all_prefix
+#print axioms legal_iff_segments
+#print axioms decoders_exact
